@@ -375,6 +375,12 @@ void lbuf_saved(struct lbuf *lb, int clear)
 	lbuf_modified(xb);
 }
 
+/* mark buffer as different from its file, whatever is undone or redone */
+void lbuf_unsaved(struct lbuf *lb)
+{
+	lb->useq_zero = -1;
+}
+
 /* was the file modified since the last lbuf_modreset() */
 int lbuf_modified(struct lbuf *lb)
 {
